@@ -158,6 +158,24 @@ class Interp(object):
                     return [(st, True), (s2, False)]
                 ln = self.abs_len(st, v)
                 return self.truth(st, ln, node)
+            if isinstance(o.cls, ClassInfo):
+                # Python's truth protocol: __bool__ (py2: __nonzero__), else __len__, else true
+                for mname in ("__bool__", "__nonzero__", "__len__"):
+                    m = o.cls.lookup(mname)
+                    if m is None:
+                        continue
+                    res = []
+                    for (s2, k2, v2) in self.call_function(st, m, [], {}, node, self_val=v):
+                        if k2 != "val":
+                            raise Unsupported("%s.%s raises while a truth value is taken at %s" % (o.cls.name, mname, self.loc(node) if node is not None else "?"))
+                        if mname == "__len__":
+                            if isinstance(v2, int) and not isinstance(v2, bool):
+                                res.append((s2, v2 != 0))
+                            else:
+                                res.extend(self.truth(s2, v2, node))
+                        else:
+                            res.extend(self.truth(s2, v2, node))
+                    return res
             return [(st, True)]
         if isinstance(v, SymLen):
             if v.added in (1, GE2):
